@@ -113,19 +113,20 @@ Proof.
     apply kshape_add_cell; [exact A|]. rewrite B. reflexivity.
 Qed.
 
-(* operations outside the proved part: as for the tet kernel (TetProofs.outside_partial) *)
+(* operations outside the proved part: as for the tet kernel (TetProofs.outside_partial): slow-mode physical removal,
+   set_face / set_cell *)
 Definition outside_partial_hex (s : mesh) (o : hop) : bool :=
   match o with HK k => outside_partial s (TK k) | HAddCellV _ _ => false end.
 
 Theorem hex_shape_step s o s' r : hex_shape s -> outside_partial_hex s o = false -> hex_step s o = HROk s' r -> hex_shape s'.
 Proof.
-  intros K O. unfold hex_step. destruct (hex_valid s o); [|discriminate].
+  intros K O. unfold hex_step. destruct (hex_valid s o) eqn:V; [|discriminate].
   destruct (hex_exec s o) as [s1 r1|] eqn:E; [|discriminate]. intros H. inversion H; subst. clear H.
-  destruct o as [k|vs chk]; cbn [hex_exec] in E.
+  destruct o as [k|vs chk]; cbn [hex_exec] in E; cbn [hex_valid] in V.
   - cbn [outside_partial_hex] in O.
     destruct k; try (match type of E with (let '(a, b) := exec s ?k in HOk a b) = _ =>
                        destruct (exec s k) as [s2 r2] eqn:E'; inversion E; subst;
-                       unfold hex_shape in *; eapply (shape_exec_kernel 4 6); [exact K | exact O | | | | exact E']; intros; discriminate end).
+                       unfold hex_shape in *; eapply (shape_exec_kernel 4 6); [exact K | exact V | exact O | | | | exact E']; intros; discriminate end).
     + pose proof (shape_hex_add_face s hes check K) as H. destruct (hex_add_face s hes check). inversion E; subst. exact H.
     + pose proof (shape_hex_add_face_v s vs K) as H. destruct (hex_add_face_v s vs). inversion E; subst. exact H.
     + pose proof (shape_hex_add_cell s hfs check K) as H. rewrite E in H. exact H.
@@ -518,3 +519,18 @@ Lemma checked_add_cell_ub_refuted :
   let s := hex_run ub_witness in
   hex_valid s (HK (AddCell [5; 7; 9; 11; 3; 12] true)) = true /\ hex_step s (HK (AddCell [5; 7; 9; 11; 3; 12] true)) = HRUB.
 Proof. vm_compute. split; reflexivity. Qed.
+
+(* ---- "accepted with topology check => documented layout" is refuted: a closed quad surface of six faces that is not a
+   cube (a quadrangulation of the sphere with a vertex of degree two; the first and the "bottom" halfface share vertex
+   0) is accepted through the re-ordering path.  T=(0,1,2,3) S1=(1,0,4,5) S2=(2,1,5,6) S3=(3,2,6,7) S4=(6,0,3,7)
+   B=(5,4,0,6) *)
+Definition weird_sphere : list hop :=
+  [HK (AddVertices 8); HK (AddFaceV [0; 1; 2; 3]); HK (AddFaceV [1; 0; 4; 5]); HK (AddFaceV [2; 1; 5; 6]);
+   HK (AddFaceV [3; 2; 6; 7]); HK (AddFaceV [6; 0; 3; 7]); HK (AddFaceV [5; 4; 0; 6])].
+
+Lemma checked_add_cell_layout_refuted :
+  let s := hex_run weird_sphere in
+  exists s', hex_step s (HK (AddCell [0; 2; 4; 6; 8; 10] true)) = HROk s' (Some 0) /\
+             cell_at s' 0 = [0; 10; 2; 6; 4; 8] /\ hex_layout s' (cell_at s' 0) = false /\
+             hex_vertices s' 0 = Some [0; 3; 2; 1; 4; 5; 6; 0].
+Proof. vm_compute. eexists. repeat split. Qed.
